@@ -10,7 +10,15 @@ NUM_KIND = {"Int": "Integer", "BigInt": "BigInt", "Float": "Float", "Byte": "Byt
 KIND_OF_NUM = {v: k for k, v in NUM_KIND.items()}
 FOLD_OPS = {"add": "add", "sub": "sub", "mul": "mul", "div": "div", "rem": "rem", "shl": "shl", "shr": "shr",
             "bitand": "bitand", "bitor": "bitor", "bitxor": "bitxor"}
-CRATE_PREFIXES = ["ast::", "string_arithmetic::", "Number", "parser::", "scope::"]
+CRATE_PREFIXES = ["ast::", "string_arithmetic::", "Number", "parser::", "scope::", "Expr", "Value", "ConstexprEvaluation", "TypeLayout", "&Number", "TypecheckFlags", "NativeType"]
+STATIC_OP = {"add": "Add", "sub": "Subtract", "mul": "Multiply", "div": "Divide", "rem": "Modulo", "shl": "BitwiseLs", "shr": "BitwiseRs",
+             "bitand": "BinaryAnd", "bitor": "BinaryOr", "bitxor": "BinaryXor"}
+
+
+def boxed(cells, key, value):
+    """Box<T> as rustc lays it out in MIR: Box(Unique(NonNull = pointer to the heap cell))"""
+    cells[key] = value
+    return Adt("Box", None, [Adt("Unique", None, [Ref(key)]), Adt("Global", None, [])])
 
 
 def number(kind, payload):
@@ -32,6 +40,14 @@ class FoldKernels:
         for op in FOLD_OPS:
             self.fn[op] = targets.find_one(mf, r"^string_arithmetic::<impl at .*number\.rs.*>::%s(#\d+)?$" % op,
                                            lambda f: f.nargs == 2 and f.locals[1].strip() == "&Number")
+        src = os.path.join(repo, "compiler/src/ast")
+        targets.register_enum_from_source(os.path.join(src, "math_expr.rs"), "Expr")
+        targets.register_enum_from_source(os.path.join(src, "math_expr.rs"), "Op")
+        targets.register_enum_from_source(os.path.join(src, "value.rs"), "Value")
+        targets.register_enum_from_source(os.path.join(src, "value.rs"), "ConstexprEvaluation")
+        targets.register_enum_from_source(os.path.join(src, "type.rs"), "TypeLayout")
+        targets.register_enum_from_source(os.path.join(src, "type.rs"), "NativeType")
+        self.fn["expr"] = targets.find_one(mf, r"math_expr\.rs.*>::try_constexpr_eval$", lambda f: f.locals[1].strip() == "&Expr")
         self.fn["negate"] = targets.find_one(mf, r"number\.rs.*>::negate$")
         self.fn["widen"] = targets.find_one(mf, r"number\.rs.*>::try_constexpr_eval$", lambda f: f.locals[1].strip() == "&Number")
 
@@ -67,6 +83,49 @@ class FoldKernels:
                 raise Inconclusive("folder %s returned Ok(%r)" % (op, n))
             paths.append(Path(o.pc, "ok", KIND_OF_NUM[n.variant], n.fields[0]))
         return Summary(op, tuple(kinds), inputs, paths, self.fn[op], time.time() - t)
+
+
+def literal_leaf(cells, key, kind, payload, int_literal_bits=None):
+    """Expr::Value(Value::Number(..)) for a literal.  For `Int` with int_literal_bits=128 the literal text is any integer up
+    to 128 bits (what the grammar allows), i.e. Number::Integer(dec(i128, v))."""
+    if kind == "Int" and int_literal_bits == 128:
+        num = Adt("Number", "Integer", [decmodels.dec("i128", payload.e)])
+    else:
+        num = number(kind, payload)
+    return boxed(cells, key, Adt("Expr", "Value", [Adt("Value", "Number", [num])]))
+
+
+def summarize_expr(fk, op, leaves):
+    """fold `leaf0 op leaf1` (or `-leaf0`) through `impl CompileTimeEvaluate for Expr`; leaves = [(kind, payload Sc, bits|None)]"""
+    cells = {}
+    bl = [literal_leaf(cells, ("heap", i), k, p, b) for i, (k, p, b) in enumerate(leaves)]
+    if op == "negate":
+        root = Adt("Expr", "UnaryMinus", [bl[0]])
+    else:
+        root = Adt("Expr", "BinOp", [bl[0], Adt("Op", STATIC_OP[op], []), bl[1]])
+    cells[("root",)] = root
+    outs = fk.ex.run(fk.fn["expr"], [Ref(("root",))], cells=cells)
+    paths = []
+    for o in outs:
+        if o.kind == "panic":
+            paths.append(Path(o.pc, "panic", site=o.value.site, msg=o.value.msg))
+            continue
+        v = o.value
+        if not (isinstance(v, Adt) and v.ty == "Result"):
+            raise Inconclusive("Expr folding returned %r" % (v,))
+        if v.variant == "Err":
+            paths.append(Path(o.pc, "err", msg=repr(v.fields[0])[:100]))
+            continue
+        ce = v.fields[0]
+        if ce.variant == "Impossible":
+            paths.append(Path(o.pc, "defer", msg="not foldable: evaluated at run time"))
+            continue
+        val = ce.fields[0]
+        if not (isinstance(val, Adt) and val.variant == "Number"):
+            raise Inconclusive("Expr folding returned %r" % (val,))
+        n = val.fields[0]
+        paths.append(Path(o.pc, "ok", KIND_OF_NUM[n.variant], n.fields[0]))
+    return paths
 
 
 def literal_value(kind, decterm):
